@@ -150,7 +150,10 @@ def lifecycle(ex, n_workers, allow_exc=()):
         if not bad:
             v.append(("exc:ValueError:no-metrics-but-metrics-exist", ex.exc[2]))
     elif ex.exc is not None and ex.exc[0] not in allow_exc:
-        v.append((f"exc:{ex.exc[0]}@{ex.exc[1]}", f"{ex.exc[0]} escaped Tuner.run at {ex.exc[1]}: {ex.exc[2]}"))
+        # root cause: the scheduler raised on a result written after the pause decision of an earlier run and delivered
+        # after the resume (judged under C02); named in the key so that any other escaping exception stays distinct
+        why = ":on-late-result-after-resume" if raised_on_late_result_after_resume(ex) else ""
+        v.append((f"exc:{ex.exc[0]}@{ex.exc[1]}{why}", f"{ex.exc[0]} escaped Tuner.run at {ex.exc[1]}: {ex.exc[2]}"))
     ex.proto_seen = proto.seen
     ex.states_seen = states_seen
     # de-duplicate keeping first message
@@ -173,6 +176,29 @@ def _seen_by_tuner(log, t, r):
         elif ended and e[0] == "stop_all":
             return False
     return False
+
+
+def raised_on_late_result_after_resume(ex):
+    """did the scheduler raise in on_trial_result on a 'late' result (written after the stop/pause decision of its run)
+    that was delivered while a later run of the same trial is current?"""
+    from syne_tune.constants import ST_WORKER_TIMESTAMP
+    backend = ex.backend
+    by_ts = {}
+    for t, lst in backend.metrics.items():
+        for m, (r, i, late) in zip(lst, backend.truth[t]):
+            by_ts[m[ST_WORKER_TIMESTAMP]] = (t, r, late)
+    cur_run = {}
+    last = None
+    for e in ex.log:
+        if e[0] == "schedule":
+            cur_run[e[1]] = e[2]
+        elif e[0] == "on_trial_result":
+            last = (e, cur_run.get(e[1]))
+    if last is None or last[0][3] != "RAISED":
+        return False
+    e, cr = last
+    info = by_ts.get(e[2].get(ST_WORKER_TIMESTAMP))
+    return info is not None and info[0] == e[1] and info[2] and info[1] != cr
 
 
 def delivery(ex, store_cb=None):
